@@ -416,3 +416,20 @@ func (r *Report) NeedFunc(rule, key string) *ssa.Function {
 	r.Saw(fn)
 	return fn
 }
+
+// CallSitesOf: the static call sites of fn in module functions (direct calls and go/defer of the function).
+func (p *Prog) CallSitesOf(fn *ssa.Function) []Site {
+	var out []Site
+	for _, g := range p.ModuleFuncs() {
+		eachInstr(g, func(s Site) {
+			c, ok := s.Instr.(ssa.CallInstruction)
+			if !ok {
+				return
+			}
+			if sc := c.Common().StaticCallee(); sc == fn {
+				out = append(out, s)
+			}
+		})
+	}
+	return out
+}
